@@ -299,7 +299,7 @@ func (app *App) addPrefixToRoute(prefix string, route *Route) *Route {
 	route.Path = prefixedPath
 	route.pathOrig = prefixedOrig
 	route.path = RemoveEscapeChar(prettyPath)
-	route.routeParser = parseRoute(prettyPath, app.customConstraints...)
+	route.routeParser = parseRouteWritten(prettyPath, prefixedPath[:len(prettyPath)], app.customConstraints...)
 	// The prefix may contain parameters of its own: recompute the parameter keys from the
 	// prefixed path exactly as register does, otherwise Route.match never consults the parser.
 	route.Params = parseRoute(prefixedPath, app.customConstraints...).params
@@ -366,7 +366,8 @@ func (app *App) register(methods []string, pathRaw string, group *Group, handler
 	pathClean := RemoveEscapeChar(pathPretty)
 
 	parsedRaw := parseRoute(pathRaw, app.customConstraints...)
-	parsedPretty := parseRoute(pathPretty, app.customConstraints...)
+	// matching is done on the lower-cased pattern, the constraints are the ones written
+	parsedPretty := parseRouteWritten(pathPretty, pathRaw[:len(pathPretty)], app.customConstraints...)
 
 	isMount := group != nil && group.app != app
 
